@@ -394,6 +394,67 @@ func TestCheck(t *testing.T) {
 		}
 	}
 
+	// E. a broker comes back on another address (same host, other port) while its old address is taken over by a
+	// new broker: after one metadata TTL the requests designated for it must reach it, not the old address
+	s.Begin("broker-address-change-followed-within-ttl")
+	for _, delay := range []time.Duration{ttl + 2*time.Second, 2*ttl + time.Second} {
+		for _, rn := range []string{"produce-t0", "fetch-t0", "listoffsets-span", "produce-t1"} {
+			for _, warm := range []bool{true, false} {
+				for _, squat := range []int{7, -1} {
+					delay, rn, warm, squat := delay, rn, warm, squat
+					id := fmt.Sprintf("%s %v after broker 2 moved to port 9093 warm=%v old-address-taken-by=%d", rn, delay, warm, squat)
+					s.Case(id, id, func() (string, *seqx.Viol) {
+						var v *seqx.Viol
+						key := ""
+						br := bub.Run(t, 0, func() {
+							c := mkCluster([3]int{2, 1, 2}, 1, 0, 0)
+							cl, tr := newClient(c, 1)
+							defer tr.CloseIdleConnections()
+							var r *req
+							for i := range all {
+								if all[i].name == rn {
+									r = &all[i]
+								}
+							}
+							if warm {
+								r.run(ctx, cl)
+							}
+							c.Lock()
+							mark := len(c.Journal)
+							c.Unlock()
+							c.MoveBroker(2, "b2", 9093, squat)
+							time.Sleep(delay)
+							err := r.run(ctx, cl)
+							c.Lock()
+							defer c.Unlock()
+							want := map[int]bool{}
+							for _, b := range r.want(c) {
+								want[b] = true
+							}
+							var got []int
+							for _, e := range c.Journal[mark:] {
+								if e.Key == r.key {
+									got = append(got, e.Broker)
+									if !want[e.Broker] && v == nil {
+										v = &seqx.Viol{Sig: "stale-broker-address:" + rn, Msg: fmt.Sprintf("%s issued %v after broker 2 moved to b2:9093 (metadata TTL %v) reached broker %d; the metadata designates %v", rn, delay, ttl, e.Broker, r.want(c))}
+									}
+								}
+							}
+							key = fmt.Sprintf("%v:%v", got, err == nil)
+							if err != nil && v == nil {
+								v = &seqx.Viol{Sig: "failed-after-address-change:" + rn, Msg: fmt.Sprintf("%s issued %v after broker 2 moved to b2:9093 failed: %v (requests reached %v)", rn, delay, err, got)}
+							}
+						})
+						if br.Panic != "" {
+							return "panic", &seqx.Viol{Sig: "panic", Msg: br.Panic}
+						}
+						return key, v
+					})
+				}
+			}
+		}
+	}
+
 	if s.Replay == nil {
 		s.AddStats(qx.ExploreAll(t, items, s.Remaining())...)
 	}
